@@ -173,7 +173,7 @@ def coq_makefile():
 
 
 def make(targets, timeout=3000, jobs=16):
-    stamp = os.path.join(COQ, ".vfiles")
+    stamp = os.path.join(COQ, ".vfiles_py")
     cur = "\n".join(v_files())
     try:
         old = open(stamp).read()
